@@ -37,18 +37,16 @@ Theorem C12_sniff_sz_stream : forall zstd_frame,
 Proof. exact sniff_sz_stream. Qed.
 Print Assumptions C12_sniff_sz_stream.
 
-(* the decoder entries agree with the sniffer except at the two bypass lengths of their type ... *)
-Theorem C12_entry_sniff_partial : forall zstd_frame ty bytes,
-  let '(a, b) := lookup_bypass ty src_bypass_sizes in
-  Z.of_nat (length bytes) <> a -> Z.of_nat (length bytes) <> b ->
-  entry_sniff zstd_frame ty bytes = sniff zstd_frame bytes.
-Proof. exact entry_sniff_agrees. Qed.
-Print Assumptions C12_entry_sniff_partial.
+(* the decoder entries give the sniffer's verdict for every stream, whatever its length (all ten entries re-examine
+   streams with the length of a constant stream: read from the source on every run) *)
+Theorem C12_entry_sniff : forall zstd_frame ty bytes, entry_sniff zstd_frame ty bytes = sniff zstd_frame bytes.
+Proof. exact entry_sniff_full. Qed.
+Print Assumptions C12_entry_sniff.
 
-(* ... where a wrapped stream is taken for an unwrapped one: the unguarded statement is refuted *)
+(* before the repair a wrapped stream with the length of a constant stream was taken for an unwrapped one *)
 Theorem C12_entry_sniff_bypass_refuted : forall zstd_frame ty bytes,
   let '(a, b) := lookup_bypass ty src_bypass_sizes in
-  zstd_frame bytes = true -> Z.of_nat (length bytes) = a -> entry_sniff zstd_frame ty bytes = NONE.
+  zstd_frame bytes = true -> Z.of_nat (length bytes) = a -> entry_sniff_old zstd_frame ty bytes = NONE.
 Proof. exact entry_sniff_bypass_refuted. Qed.
 Print Assumptions C12_entry_sniff_bypass_refuted.
 
